@@ -30,7 +30,7 @@ func init() {
 		ID:    "C09",
 		Level: "exploration",
 		Rule: "wclose list: a real Writer with concurrent callers; Close is placed at a gated position (a WriteMessages call held inside Balance, i.e. after the closed-check and before batching; a batch timer pending; an attempt in flight on a slow broker; a back-off sleep; an unreachable broker) or at a random moment; judged on: Close returns within the bound, every message accepted before Close has a terminal outcome and its Completion ran before Close returned, WriteMessages afterwards fails with io.ErrClosedPipe, a blocked WriteMessages returns ctx.Err() after cancellation, no Writer goroutine survives. " +
-			"rclose/gclose/transport lists: the same for Reader, consumer-group Reader and Transport.RoundTrip (see DESIGN). signature = (list, close placement, config class, what was in flight); non-trivial = Close overlapped at least one in-flight call or pending batch",
+			"rclose/gclose/transport lists: the same for Reader, consumer-group Reader and Transport.RoundTrip (see DESIGN); a quarter of the transport cases keep the broker silent not on the request but on the forced metadata refresh the Transport waits for after CreateTopics / an auto-creating Metadata request. signature = (list, close placement, config class, what was in flight); non-trivial = Close overlapped at least one in-flight call or pending batch",
 		Assumptions: []string{
 			"bounds are wall-clock: configured time-outs are <= 200 ms, the bound is 20 s and a miss is only reported after a confirmation run on an idle process (hangs: the case watchdog, also confirmed by a second run)",
 			"goroutine census: goroutines whose stack contains a kafka-go Writer/Reader/ConsumerGroup frame; cases of this property run one at a time per process so the census is attributable",
